@@ -14,7 +14,7 @@ CLAIMED = {
     text='Slice: the FastCGI length/name-value decoder (read_len, parse_pairs), the FastCGI record cache (peek/skip/read_bytes, async_read_from_socket, on_some_read_from_socket, '
          'non_blocking_read_record: the delivered bytes are a prefix of the received bytes however the stream is cut), the FastCGI STDIN hand-over (async_read_some, on_some_input_recieved, on_read_stdin_eof_expected: '
          'the next min(s,unread) bytes of the current record are delivered in order and accounted once, exactly the rest stays buffered, the cursor never leaves the buffer, reading past CONTENT_LENGTH is refused), '
-         'the SCGI netstring reader, and util::urldecode are under contract for all inputs.',
+         'the SCGI netstring reader, and util::urldecode are under contract for all inputs. The embedded HTTP server\'s header splitter is under contract: RFC 2616 token / separators / LWS helpers, parse_single_header (the CGI variable name is the header\'s token upper-cased with - -> _, the value is the rest of the line after the colon and white space, verbatim; both copies fit their allocation - proved in the thorough tier, about 7 minutes) and, in the quick tier, the normalisation step of its loop (every letter a..z).',
     note=TRUST + 'Covered only as a slice: end-to-end equality of the request seen through HTTP/SCGI/FastCGI (goes through cppcms::service and the event loop), the embedded HTTP parser, '
          'cookies/forms and keep-alive sequencing are NOT covered. std::vector buffers are modelled as a fixed-capacity object with a logical size; string pool / environment map are stubs.',
     design='4 (C01/C02/C12)', technique='cbmc code contracts (dfcc) + loop contracts on extracted C; representation invariant of the record cache'),
